@@ -2,7 +2,7 @@
 //! ThreadSanitizer, valgrind memcheck). Deciding step: the tool's report; the workload's own oracle
 //! (plan validity, parallel == serial) runs too and makes the process exit non-zero.
 //!
-//!   avs gen-fixtures <dir> <n> <seed>     native: generate n dispatch fixtures (compact, bincode)
+//!   avs gen-fixtures <dir> <n> <seed> [max est nodes]   native: generate n dispatch fixtures (compact, bincode)
 //!   avs dispatch <dir> [max]              run run_dispatch on every fixture in <dir>
 //!   avs batch <seed> <elements> <steps>   LocomotiveSimulationVec: parallel walk vs serial walks
 use altrios_core::consist::locomotive::loco_sim::LocomotiveSimulationVec;
@@ -25,7 +25,7 @@ struct Fixture {
     nets: Vec<EstTimeNet>,
 }
 
-fn gen_fixtures(dir: &str, n: usize, seed: u64) {
+fn gen_fixtures(dir: &str, n: usize, seed: u64, max_nodes: usize) {
     std::fs::create_dir_all(dir).unwrap();
     let mut made = 0;
     let mut k = 0u64;
@@ -50,7 +50,7 @@ fn gen_fixtures(dir: &str, n: usize, seed: u64) {
                 dests.push(t.dests.clone());
             }
         }
-        if nets.len() < 2 {
+        if nets.len() < 2 || nets.iter().map(|n| n.val.len()).sum::<usize>() > max_nodes {
             continue;
         }
         let links = inst.links.iter().map(|l| (l.idx_flip.idx() as u32, l.idx_next.idx() as u32, l.idx_next_alt.idx() as u32, l.idx_prev.idx() as u32, l.idx_prev_alt.idx() as u32, l.link_idxs_lockout.iter().map(|x| x.idx() as u32).collect(), l.length.value)).collect();
@@ -195,7 +195,8 @@ fn batch(seed: u64, n: usize, steps: usize) {
 fn main() {
     let a: Vec<String> = std::env::args().collect();
     match a.get(1).map(|s| s.as_str()) {
-        Some("gen-fixtures") => gen_fixtures(&a[2], a[3].parse().unwrap(), a.get(4).and_then(|s| s.parse().ok()).unwrap_or(1)),
+        Some("gen-fixtures") => gen_fixtures(&a[2], a[3].parse().unwrap(), a.get(4).and_then(|s| s.parse().ok()).unwrap_or(1), a.get(5).and_then(|s| s.parse().ok()).unwrap_or(usize::MAX)),
+        Some("noop") => println!("avs built"),
         Some("dispatch") => dispatch(&a[2], a.get(3).and_then(|s| s.parse().ok()).unwrap_or(usize::MAX)),
         Some("dispatch-trace") => dispatch_trace(&a[2]),
         Some("batch") => batch(a[2].parse().unwrap(), a[3].parse().unwrap(), a[4].parse().unwrap()),
